@@ -54,6 +54,13 @@ def check_via_i2(ctx, ck, K, A):
                 it = el.iter_term
                 if isinstance(it, tuple) and it[0] == "iter" and list_of(it[1]) == "AM" and _covers_to(el, key, fx):
                     ok = True
+        # (b) the scan is written as active_mappings.iter().any(|m| ...) and was false
+        for a, v in ([] if ok else g):
+            if v is False and isinstance(a, tuple) and a and a[0] == "call" and method_name(a[1]) == "any":
+                el = tables.any_scan(ctx.body, a)
+                it = el.iter_term
+                if not el.problems and isinstance(it, tuple) and it[0] == "iter" and list_of(it[1]) == "AM" and _covers_to(el, key, fx):
+                    ok = True
         for a, v in ([] if ok else g):
             # flag read after the scan loop: loopvar of a bool local, guard value False
             if v is False and isinstance(a, tuple) and a and a[0] == "loopvar" and body.ltypes.get(a[2]) == "bool":
@@ -161,6 +168,8 @@ def run(ctx):
             ck.ob("C19-B", fn, "batch-%s:push-guarded-by-membership-in-held-list" % name, bool(pos), site=e.ev.span,
                   detail=None if pos else "a key is collected for release without a positive membership test on pass_through_keys/mapped_output_keys")
             dup = [a for a, v in g if v is False and isinstance(a, tuple) and a[0] == "in" and list_of(a[2]) == ("local", local) and fx.same_key(a[1], e.key)]
+            if not dup and _single_distinct_source(K, body, b, fx, e):
+                dup = ["single-source"]
             ck.ob("C19-B", fn, "batch-%s:duplicate-free" % name, bool(dup), site=e.ev.span,
                   detail=None if dup else ("the batch can receive the same key twice (no `!batch.contains(key)` guard and more than one source "
                                            "list): every element is emitted as Released, so the key would be released twice"))
@@ -183,6 +192,23 @@ def run(ctx):
 
     # ---- event flow: every event vector and every Vec<Event>/StepResult returned by a mapper function reaches the result
     check_flow(ctx, ck, K)
+
+
+def _single_distinct_source(K, body, batch, fx, e):
+    """the batch is filled at one site only, inside a single (non-nested) loop over the `to`/`from` list of ONE
+    mapping: such a list has pairwise distinct keys (the mapper's constructor insists on it, C14-R2), so the batch
+    cannot receive a key twice"""
+    sites = {(id(f.body), ev.ev.blk) for f, ev in batch["pushes"]}
+    if len(sites) != 1 or not fx.tag.startswith("L"):
+        return False
+    h = int(fx.tag[1:])
+    if any(hh != h and h in blks for hh, blks in body.loops().items()):
+        return False   # nested in another loop: several source lists
+    key = mir.strip(e.key)
+    if not (isinstance(key, tuple) and key[0] == "elem" and isinstance(key[1], tuple) and key[1][0] == "iter"):
+        return False
+    src = key[1][1]
+    return isinstance(src, tuple) and src[0] == "field" and src[2] in ("to", "from")
 
 
 def _stable(txt):
